@@ -147,8 +147,15 @@ class EofPdu(AbstractFileDirectiveBase):
         current_idx, eof_pdu.file_size = eof_pdu.pdu_file_directive.parse_fss_field(
             raw_packet=data, current_idx=current_idx
         )
-        if len(data) > current_idx:
-            eof_pdu.fault_location = EntityIdTlv.unpack(data=data[current_idx:])
+        # The directive parameters end where the PDU ends according to its header, before the CRC
+        # trailer if there is one. Anything after that is not part of this PDU.
+        end_of_params = eof_pdu.pdu_file_directive.packet_len
+        if eof_pdu.pdu_file_directive.pdu_conf.crc_flag == CrcFlag.WITH_CRC:
+            end_of_params -= 2
+        if end_of_params > current_idx:
+            eof_pdu.fault_location = EntityIdTlv.unpack(
+                data=data[current_idx:end_of_params]
+            )
         return eof_pdu
 
     def __eq__(self, other: EofPdu):
